@@ -31,16 +31,19 @@ def boundary_programs():
     length N-1 / N / N+1, appends up to and beyond N, N at the integer-size boundaries."""
     out = []
 
-    def add(name, src, **feats):
+    def add(name, src, inputs=(), **feats):
         f = {"eof": True, "yields": False}
         f.update(feats)
-        out.append({"name": "bnd-" + name, "src": src, "feats": f, "args": feature_args(f), "origin": "boundary"})
+        out.append({"name": "bnd-" + name, "src": src, "feats": f, "args": feature_args(f), "origin": "boundary",
+                    "inputs": [bytes(i).hex() for i in inputs]})
     for n in (1, 2, 4, 255, 256, 257):
         for unt in (False, True):
             kind = "unterminated str" if unt else "str"
             tag = f"{'u' if unt else 't'}{n}"
             if not (n == 1 and not unt):
-                add(f"fill-{tag}", f"out {kind}[{n}] s;\nhook full;\nhook okh;\nparser {{\n  try {{ s += /x+/; \";\"; okh(); }} catch (outofspace) {{ full(); wait \";\"; }}\n  \"!\";\n}}\n")
+                cap = n if unt else n - 1
+                add(f"fill-{tag}", f"out {kind}[{n}] s;\nhook full;\nhook okh;\nparser {{\n  try {{ s += /x+/; \";\"; okh(); }} catch (outofspace) {{ full(); wait \";\"; }}\n  \"!\";\n}}\n",
+                    inputs=[b"x" * max(cap - 1, 1) + b";!", b"x" * max(cap, 1) + b";!", b"x" * (cap + 1) + b";!", b"x" * (cap + 44) + b";!"])
             if n <= 4:
                 for ln in (n - 1, n, n + 1):
                     if ln < 0:
@@ -50,6 +53,18 @@ def boundary_programs():
                     if ln >= 1:
                         add(f"default-{tag}-{ln}", f"out {kind}[{n}] s = \"{lit}\";\nparser {{\n  \"a\"; s += /[a-z]*/; \";\";\n}}\n")
                 add(f"charappend-{tag}", f"out {kind}[{n}] s;\nhook full;\nparser {{\n  loop {{ case {{ \"+\" -> {{ try {{ \"k\"; s += [65]; }} catch (outofspace) {{ full(); }} }} \"-\" -> {{ delete s; }} \";\" -> {{ break; }} }} }}\n}}\n")
+    # more states than one byte can number (the state variable's type), cut anywhere
+    lit = "".join("abcdefghij"[i % 10] for i in range(300))
+    add("long-literal", f"hook h;\nparser {{\n  \"{lit}\"; h(); \";\";\n}}\n",
+        inputs=[lit.encode() + b";", lit.encode()[:270] + b"!", lit.encode()[:129]])
+    # indexing bytes >= 0x80 (char vs uint8_t storage), the index at and around the size
+    add("index-high", "out str[4] hdr;\nout int value;\nout bool big;\nout int edge;\nparser {\n  hdr += b/[00-ff][00-ff]/;\n  value = [hdr[0] * 256 + hdr[1]];\n  if hdr[0] >= 128 { big = true; }\n  edge = [hdr[3] + hdr[4] * 3 + hdr[5] * 5];\n  \";\";\n}\n",
+        inputs=[bytes([0x81, 0x02, 0x3b]), bytes([0x01, 0x90, 0x3b]), bytes([0xff, 0xff, 0x3b])])
+    # a break two conditional levels deep
+    add("nested-cond-break", "out int depth = 0;\nout int n = 0;\nparser {\n  loop {\n    case {\n      \"(\" -> { depth = [depth + 1]; }\n      \")\" -> { if depth > 1 { depth = [depth - 1]; } else { if depth == 1 { n = [n + 1]; break; } } }\n      /[a-z]/ -> { }\n    }\n  }\n  \";\";\n}\n",
+        inputs=[b"(a(b)c);", b"());"])
+    add("empty-assign", "out str[8] tag;\nhook got;\nhook after;\nparser {\n  loop {\n    tag += /[a-z]+/; \";\"; got();\n    tag = \"\"; \"!\"; after();\n    case { \".\" -> { break; } \",\" -> { } }\n  }\n}\n",
+        inputs=[b"abc;!,x;!.", b"q;!."])
     add("raw-fill", "out raw{uint16_t} r;\nhook full;\nparser {\n  try { r += /x+/; \";\"; } catch (outofspace) { full(); wait \";\"; }\n}\n")
     return out
 
